@@ -50,6 +50,67 @@ def judge(rep):
     return out
 
 
+def header_fault_program(rng):
+    """Block headers that fail at run time (every kind of block, at some iterations only), nested in other blocks, in the main
+    module or in a SUB, trapped by ON ERROR RESUME NEXT or by a handler that ends in RESUME NEXT: wherever the VM continues,
+    the stacks must stay balanced (the output is not judged here)."""
+    fail = rng.choice(["1 / Z%", "10 / Z%", "A%(Z% + 9)", "32767 + (1 - Z%) * 40000 > 1"])
+    inner_kind = rng.choice(["for_to", "for_from", "for_step", "while", "do_while", "do_until_bottom", "if_block", "if_else", "select", "if_line", "elseif", "case_expr"])
+    body = ['PRINT "body"; O%; Z%']
+    if inner_kind == "for_to":
+        inner = ["FOR I% = 1 TO @F".replace("@F", fail)] + body + ["NEXT"]
+    elif inner_kind == "for_from":
+        inner = ["FOR I% = @F TO 2".replace("@F", fail)] + body + ["NEXT I%"]
+    elif inner_kind == "for_step":
+        inner = ["FOR I% = 1 TO 2 STEP @F".replace("@F", fail)] + body + ["NEXT"]
+    elif inner_kind == "while":
+        inner = ["W% = 0", "WHILE @F AND W% < 2".replace("@F", fail), "W% = W% + 1", "IF W% >= 2 THEN Z% = 1"] + body + ["WEND"]
+    elif inner_kind == "do_while":
+        inner = ["W% = 0", "DO WHILE @F AND W% < 2".replace("@F", fail), "W% = W% + 1", "IF W% >= 2 THEN Z% = 1"] + body + ["LOOP"]
+    elif inner_kind == "do_until_bottom":
+        inner = ["W% = 0", "DO", "W% = W% + 1"] + body + ["LOOP UNTIL @F OR W% >= 2".replace("@F", fail)]
+    elif inner_kind == "if_block":
+        inner = ["IF @F THEN".replace("@F", fail)] + body + ["END IF"]
+    elif inner_kind == "if_else":
+        inner = ["IF @F THEN".replace("@F", fail)] + body + ["ELSE", 'PRINT "else"', "END IF"]
+    elif inner_kind == "elseif":
+        inner = ["IF Z% = 77 THEN", 'PRINT "never"', "ELSEIF @F THEN".replace("@F", fail)] + body + ["ELSE", 'PRINT "else"', "END IF"]
+    elif inner_kind == "select":
+        inner = ["SELECT CASE @F".replace("@F", fail), "CASE 1"] + body + ["CASE ELSE", 'PRINT "other"', "END SELECT"]
+    elif inner_kind == "case_expr":
+        inner = ["SELECT CASE O%", "CASE 77", 'PRINT "never"', "CASE @F".replace("@F", fail)] + body + ["CASE ELSE", 'PRINT "other"', "END SELECT"]
+    else:
+        inner = ["IF @F THEN PRINT \"t\" ELSE PRINT \"f\"".replace("@F", fail)]
+    outer_kind = rng.choice(["for", "for", "for_step", "while", "select", "none"])
+    zset = rng.choice(["Z% = O% - 2", "Z% = 0", "Z% = (O% MOD 2)"])
+    if outer_kind == "for":
+        block = ["FOR O% = 1 TO 3", zset] + inner + ['PRINT "after"; O%', "NEXT O%"]
+    elif outer_kind == "for_step":
+        block = ["FOR O% = 3 TO 1 STEP -1", zset] + inner + ['PRINT "after"; O%', "NEXT"]
+    elif outer_kind == "while":
+        block = ["O% = 0", "WHILE O% < 3", "O% = O% + 1", zset] + inner + ['PRINT "after"; O%', "WEND"]
+    elif outer_kind == "select":
+        block = ["O% = 2", "SELECT CASE O%", "CASE 2", "Z% = 0"] + inner + ['PRINT "after"', "END SELECT"]
+    else:
+        block = ["O% = 2", "Z% = 0"] + inner + ['PRINT "after"']
+    if rng.random() < 0.5:
+        block = ["FOR Q% = 1 TO 2"] + block + ["NEXT Q%"]
+    trap = rng.choice(["next", "handler"])
+    in_sub = rng.random() < 0.35
+    dim = "DIM A%(1 TO 3)"
+    lines = []
+    if in_sub:
+        lines += ["ON ERROR RESUME NEXT" if trap == "next" else "ON ERROR GOTO Hd", "Work", "Work", 'PRINT "end"', "END"]
+        if trap == "handler":
+            lines += ["Hd:", 'PRINT "err"; ERR', "RESUME NEXT"]
+        lines += ["SUB Work", dim] + block + ["END SUB"]
+    else:
+        lines += [dim, "ON ERROR RESUME NEXT" if trap == "next" else "ON ERROR GOTO Hd"] + block + ['PRINT "end"', "END"]
+        if trap == "handler":
+            lines += ["Hd:", 'PRINT "err"; ERR', "RESUME NEXT"]
+    return "\n".join(lines) + "\n", ["inner_" + inner_kind, "outer_" + outer_kind, "trap_" + trap, "in_sub" if in_sub else "in_main"]
+
+
 def shard(ctx):
     r = ShardResult()
     rng = ctx.rng
@@ -76,6 +137,9 @@ def shard(ctx):
             elif x < 0.42:
                 src, _ = emit_with_procs(GenJumps(rng).program())
                 kind, stdin, uses_files, lpt1, feats = "jumps", "", False, None, []
+            elif x < 0.50:
+                src, feats = header_fault_program(rng)
+                kind, stdin, uses_files, lpt1 = "header_faults", "", False, None
             else:
                 kind, src, stdin, uses_files, lpt1, feats = make_case(rng, texts, accepted)
         if "INKEY$" in src.upper():
@@ -93,6 +157,9 @@ def shard(ctx):
             continue
         r.evaluations += 1
         r.count(kind, group="workload")
+        if kind == "header_faults":
+            for f in feats:
+                r.count(f, group="header_fault_shapes")
         m = rep.get("mon", {})
         jif_both += m.get("jif_both", 0)
         jif_seen += m.get("jif_seen", 0)
